@@ -36,7 +36,8 @@ def parseTxs (s : String) : Option (List Tx) :=
         match i.toNat?, subs.mapM (fun w => match w.splitOn "@" with
             | [h, x] => do some ((← h.toNat?), (← x.toNat?))
             | _ => none) with
-        | some i, some ss => some { id := i, exp := e, bodyOk := ok == "1", subs := ss.map (·.1), subExps := ss.map (·.2) }
+        | some i, some ss => some { id := i, exp := e, bodyOk := ok == "1", subs := ss.map (·.1), subExps := ss.map (·.2),
+                                    bodyPanics := ok == "p" }
         | _, _ => none
       | _, _ => none
     | _ => none)
@@ -110,9 +111,11 @@ def ins (s : St) (m : List (String × String)) : Option String := do
       hash := encode
       recover := fun _ _ => if sig < 0 then none else some sig.toNat
       merkleRoot := fun _ => txr
-      onAncestor := fun _ _ => anc == "1"
+      onAncestor := fun _ _ => if anc == "p" then none else some (anc == "1")
       reexec := fun _ => exec }
-    let r := insertBlock (σ := Unit) (fun _ => c) (fun u _ => u) { durable := (), scratch := none } b
+    -- `sv=fail`: the harness injected a storage fault, `saveNewBlock` returns an error
+    let svOk := (get m "sv").getD "ok" != "fail"
+    let r := insertBlock (σ := Unit) (fun _ => c) (fun u _ => (u, svOk)) { durable := (), scratch := none } b
     some (r.2.show ++ " pre=" ++ (verifyBefore c b).pre)
   | _ => none
 
@@ -122,7 +125,7 @@ def vm (s : St) (n ph : Nat) (pr : Int) (pts ts : Nat) (T : Int) (mr : Int) : St
     stored := fun _ => false, stableHeight := 0, load := fun _ => none
     deputies := fun _ => ds
     now := 0, mineTimeout := T, termDuration := s.term, interimDuration := s.interim
-    hash := encode, recover := fun _ _ => none, merkleRoot := fun _ => 0, onAncestor := fun _ _ => false
+    hash := encode, recover := fun _ _ => none, merkleRoot := fun _ => 0, onAncestor := fun _ _ => some false
     reexec := fun _ => .err }
   let parent : Header := { (default : Header) with height := ph, time := pts, miner := if pr < 0 then 1000 else pr.toNat }
   let h : Header := { (default : Header) with height := ph + 1, time := ts, miner := if mr < 0 then 1001 else mr.toNat }
@@ -138,6 +141,8 @@ def step (s : St) (w : List String) : St × String :=
     match headerFields.find? (fun p => p.1 == name) with
     | some p => (s, toString p.2)
     | none => (s, "unknown-field")
+  | ["const", "MaxExtraDataLen"] => (s, toString maxExtraDataLen)
+  | ["const", "MaxTxLifeTime"] => (s, toString LemoGen.TxWindow.MaxTxLifeTime)
   | ["hashfields-all"] =>
     (s, ",".intercalate ((headerFields.map (·.1)).toArray.qsort (· < ·)).toList)
   | ["vm", n, ph, pr, pts, ts, T, mr] =>
